@@ -8,6 +8,7 @@ import (
 	"strings"
 	"time"
 
+	"github.com/samaritan-proxy/samaritan/host"
 	pbredis "github.com/samaritan-proxy/samaritan/pb/config/protocol/redis"
 	"github.com/samaritan-proxy/samaritan/proc/redis"
 
@@ -208,10 +209,89 @@ func (c *c14) strat(f []string) string {
 	return strings.Join(phases, "|")
 }
 
+// c14.scan <M|R|B> <masters> <replicas per master>   every master and every replica is a configured host, the routing table is
+// known; a whole SCAN iteration from cursor 0 (every node answers cursor 0 and one key)
+//
+//	-> targets=<M<i> | R<i>.<j> | X, in call order> keys=<number of keys returned>
+func (c *c14) scan(st, nmS, nrS string) string {
+	nm, e1 := strconv.Atoi(nmS)
+	nr, e2 := strconv.Atoi(nrS)
+	strat, ok := map[string]pbredis.ReadStrategy{"M": pbredis.ReadStrategy_MASTER, "R": pbredis.ReadStrategy_REPLICA, "B": pbredis.ReadStrategy_BOTH}[st]
+	if e1 != nil || e2 != nil || !ok || nm < 1 || nm > 8 || nr < 0 || nr > 3 {
+		return "bad-op"
+	}
+	role := map[string]string{}
+	var hosts []*host.Host
+	var addrs []string
+	for i := 0; i < nm; i++ {
+		role[hx.NodeAddr(i)] = fmt.Sprintf("M%d", i)
+		addrs = append(addrs, hx.NodeAddr(i))
+		for j := 0; j < nr; j++ {
+			// replica addresses sort between the masters: a walk over the sorted host list meets them
+			a := fmt.Sprintf("n%05d:1r%d", i, j)
+			role[a] = fmt.Sprintf("R%d.%d", i, j)
+			addrs = append(addrs, a)
+		}
+	}
+	for _, a := range addrs {
+		hosts = append(hosts, host.New(a))
+	}
+	c14seq++
+	rig := redis.VerifNewRig(fmt.Sprintf("c14scan-%d", c14seq), hx.RedisConfig(strat, nil), hosts, addrs)
+	defer hx.DropScopes(rig.ScopeName())
+	per := 16384 / nm
+	for i := 0; i < nm; i++ {
+		hi := (i+1)*per - 1
+		if i == nm-1 {
+			hi = 16383
+		}
+		var reps []string
+		for j := 0; j < nr; j++ {
+			reps = append(reps, fmt.Sprintf("n%05d:1r%d", i, j))
+		}
+		rig.SetSlot(i*per, hi, hx.NodeAddr(i), reps)
+	}
+	cursor := []byte("0")
+	var targets []string
+	keys := 0
+	for step := 0; step < 64; step++ {
+		raw := rig.Handle(hx.Bulks([]byte("scan"), cursor))
+		for _, s := range rig.Drain() {
+			r, ok := role[s.Addr]
+			if !ok {
+				r = "X"
+			}
+			targets = append(targets, r)
+			s.Reply(&redis.RespValue{Type: redis.Array, Array: []redis.RespValue{
+				{Type: redis.BulkString, Text: []byte("0")},
+				{Type: redis.Array, Array: []redis.RespValue{{Type: redis.BulkString, Text: []byte("key@" + s.Addr)}}},
+			}})
+		}
+		if !raw.Done() {
+			return "hang"
+		}
+		resp := raw.Response()
+		if resp.Type != redis.Array || len(resp.Array) != 2 {
+			return "reply " + hx.Render(resp)
+		}
+		keys += len(resp.Array[1].Array)
+		cursor = append([]byte{}, resp.Array[0].Text...)
+		if string(cursor) == "0" {
+			break
+		}
+	}
+	return fmt.Sprintf("targets=%s keys=%d", strings.Join(targets, ","), keys)
+}
+
+var c14seq int
+
 func (c *c14) Exec(op string) string {
 	f := hx.Fields(op)
 	if len(f) >= 1 && f[0] == "c14.topo" {
 		return recoverStr(func() string { return c.topo(f[1:]) })
+	}
+	if len(f) == 4 && f[0] == "c14.scan" {
+		return recoverStr(func() string { return c.scan(f[1], f[2], f[3]) })
 	}
 	if len(f) >= 2 && f[0] == "c14.strat" {
 		return recoverStr(func() string { return c.strat(f[1:]) })
@@ -324,8 +404,12 @@ func (c *c14) Gen(r *hx.Run) {
 		for _, a1 := range []string{"000", "001", "011", "111", "010"} {
 			for _, a2 := range []string{"000", "001", "011", "111", "100"} {
 				r.Do(fmt.Sprintf("c14.topo %s %s %s 40", st, a1, a2), a1 != a2, "topo")
+				r.Do(fmt.Sprintf("c14.scan %s %d %d", st, 1+rng.Intn(5), rng.Intn(3)), true, "scan-roles")
 			}
 		}
+	}
+	for _, op := range []string{"c14.scan M 1 1", "c14.scan M 3 2", "c14.scan M 2 0", "c14.scan M 5 1"} {
+		r.Do(op, true, "scan-roles")
 	}
 	// the read strategy changed by configuration updates, no slots refresh in between
 	for _, h := range []string{"R M", "B M", "M R", "M B", "R B M", "B R M R", "R M R M"} {
